@@ -34,6 +34,7 @@ class Elem:
     min: int = 1
     max: int = 1                    # -1 unbounded
     in_choice: bool = False
+    implied: str | None = None      # default= / fixed= or the documented "implied value SHALL be ..." (text form)
 
 
 @dataclass
@@ -47,6 +48,20 @@ class CType:
     any_elem: bool = False
     any_attr: bool = False
     mixed: bool = False
+    adefault: dict = field(default_factory=dict)   # attribute name -> default= or documented implied value (text form)
+
+
+def documented_default(node) -> str | None:
+    """the value an absent attribute / element stands for: default="..." of the declaration, else the sentence
+    `The implied value ... SHALL be "..."` of its xsd:documentation (BICEPS documents implied values that way)"""
+    import re
+    if node.get('default') is not None:
+        return node.get('default')
+    for doc in node.findall(X + 'annotation/' + X + 'documentation'):
+        m = re.search(r'implied value[^"<>]{0,80}?SHALL be "([^"]*)"', ' '.join((doc.text or '').split()), re.I)
+        if m:
+            return m.group(1)
+    return None
 
 
 class Index:
@@ -112,7 +127,7 @@ class Index:
                 typ = ('@simple', node.find(X + 'simpleType'))
         mn = int(node.get('minOccurs', '1'))
         mx = node.get('maxOccurs', '1')
-        return Elem(qn, typ, mn, -1 if mx == 'unbounded' else int(mx), in_choice)
+        return Elem(qn, typ, mn, -1 if mx == 'unbounded' else int(mx), in_choice, documented_default(node))
 
     def _particles(self, node, tns, qualified, ct, opt=False, in_choice=False):
         for ch in node:
@@ -148,11 +163,16 @@ class Index:
                     g = self.gattrs.get((ns, n))
                     typ = self._ref(g[0], g[0].get('type')) if g is not None else None
                     ct.attrs[f'{{{ns}}}{n}'] = (typ, ch.get('use') == 'required')
+                    dv = documented_default(ch) or (documented_default(g[0]) if g is not None else None)
+                    if dv is not None:
+                        ct.adefault[f'{{{ns}}}{n}'] = dv
                 else:
                     typ = self._ref(ch, ch.get('type'))
                     if ch.find(X + 'simpleType') is not None:
                         typ = ('@simple', ch.find(X + 'simpleType'))
                     ct.attrs[ch.get('name')] = (typ, ch.get('use') == 'required')
+                    if documented_default(ch) is not None:
+                        ct.adefault[ch.get('name')] = documented_default(ch)
             elif t == 'attributeGroup':
                 g, gtns = self.attr_groups[self._ref(ch, ch.get('ref'))]
                 self._attrs(g, gtns, ct)
@@ -202,6 +222,8 @@ class Index:
                     ct.any_elem or b.any_elem, ct.any_attr or b.any_attr, ct.mixed or b.mixed)
         res.attrs.update(ct.attrs)
         res.elems.extend(ct.elems)
+        res.adefault = dict(b.adefault)
+        res.adefault.update(ct.adefault)
         return res
 
     def elem_type(self, e: Elem):
